@@ -5,7 +5,7 @@ CONSTANTS
   Profiles <- ProfQuick
   STags <- TagsAll
   OTags <- TagsTwo
-  MaxTagged = 1
+  MaxTagged <- TaggedQuick
   MaxList = 3
   ListPool <- PoolQuick
   Texts <- TextsQuick
